@@ -15,7 +15,21 @@
 (* under the library's generator step RealGen (numeric.c generate_seed: 0x7AFB2C23 * s + 0x894C3 mod 2^32),   *)
 (* i.e. srand_(s) stores RealGen(s) and every draw stores RealGen(word read); routines recorded with         *)
 (* Run.co = 1 draw on the calling thread only.                                                              *)
-EXTENDS TraceBase, Integers
+(* Added in round 3:                                                                                          *)
+(*   Result.nth/rep/dq : "bit-identical between repeated runs, equal to rounding across thread counts": a run *)
+(*                with the thread count of an earlier run of the block must repeat its hash exactly; a run    *)
+(*                with another thread count than the reference must have the reference hash, or (property     *)
+(*                layer only - the merge order of CvOrch.tla makes the code bit-identical today) differ from   *)
+(*                it by at most TolRound(m) relative to the largest reference magnitude, m = merged terms      *)
+(*   Result.libc : number of calls the library made into libc's process-wide generator / clocks (rand, srand, *)
+(*                random, drand48, gettimeofday, clock ... interposed by the harness): shared mutable state    *)
+(*                outside the seeded stream - must be 0                                                        *)
+(*   Race(var, ..): a data race reported by ThreadSanitizer on the real CV routines (hooks off), attributed to *)
+(*                a state class of RngState.tla: accepted only on state the model does not speak about         *)
+(*   Create(th, it, seed): hook H5 at the creation of a bootstrap worker; implementation layer: the seed is    *)
+(*                base + th + it with base fixed for the call (CvOrch.tla seed offsets), so the seeds of a     *)
+(*                call with a dividing thread count are base .. base + iterations - 1, each once              *)
+EXTENDS TraceBase, Integers, RngState
 CONSTANT PropOnly
 Threads == 0..63
 B16 == 65536
@@ -30,8 +44,14 @@ RealGen(x) == LET h == x[1]
                   lo1 == (p0 % B16) + CL
                   hi1 == mid + CH + (lo1 \div B16)
               IN <<hi1 % B16, lo1 % B16>>
-VARIABLES l, phase, last, has, pend, hasp, ref, nres, co, ts
-tvars == <<l, phase, last, has, pend, hasp, ref, nres, co, ts>>
+VARIABLES l, phase, last, has, pend, hasp, ref, nres, co, ts, first, hasf, refn, terms, sbase, seeds
+tvars == <<l, phase, last, has, pend, hasp, ref, nres, co, ts, first, hasf, refn, terms, sbase, seeds>>
+r3vars == <<first, hasf, refn, terms, sbase, seeds>>
+Counts == 0..64
+NoHash == [n \in Counts |-> <<0, 0, 0>>]
+NoCount == [n \in Counts |-> FALSE]
+\* "equal to rounding": relative difference (units of 1e-12 of the largest reference magnitude) a re-ordered sum of m terms may show
+TolRound(m) == 2 + m
 Ev == Tr[l]
 Step == l' = l + 1
 Clean == [w \in Threads |-> <<0, 0>>]
@@ -39,43 +59,75 @@ None == [w \in Threads |-> FALSE]
 Pair(v) == <<v[1], v[2]>>
 TInit == /\ l = 1 /\ phase = "idle" /\ last = Clean /\ has = None /\ pend = Clean /\ hasp = None
          /\ ref = <<0, 0, 0>> /\ nres = 0 /\ co = 0 /\ ts = 0
+         /\ first = NoHash /\ hasf = NoCount /\ refn = 1 /\ terms = 0 /\ sbase = -1 /\ seeds = {}
 TReset == /\ l <= Len(Tr) /\ Ev.e = "Reset" /\ phase = "idle" /\ Step
           /\ last' = Clean /\ has' = None /\ pend' = Clean /\ hasp' = None /\ ref' = <<0, 0, 0>> /\ nres' = 0 /\ phase' = "reset"
           /\ co' = 0 /\ ts' = 0
+          /\ first' = NoHash /\ hasf' = NoCount /\ refn' = 1 /\ terms' = 0 /\ sbase' = -1 /\ seeds' = {}
 TRun == /\ l <= Len(Tr) /\ Ev.e = "Run" /\ phase = "reset" /\ Step /\ phase' = "run"
         /\ co' = (IF Has(Ev, "co") THEN Ev.co ELSE 0) /\ ts' = (IF Has(Ev, "ts") THEN Ev.ts ELSE 0)
-        /\ UNCHANGED <<last, has, pend, hasp, ref, nres>>
+        /\ terms' = (IF Has(Ev, "nw") THEN Ev.nw ELSE 0)
+        /\ UNCHANGED <<last, has, pend, hasp, ref, nres, first, hasf, refn, sbase, seeds>>
 TSeq == /\ l <= Len(Tr) /\ Ev.e = "Seq" /\ phase = "run" /\ Step
         /\ ref' = <<Ev.h[1], Ev.h[2], Ev.h[3]>> /\ phase' = "rec" /\ UNCHANGED <<last, has, pend, hasp, nres, co, ts>>
+        /\ refn' = (IF Has(Ev, "nth") THEN Ev.nth ELSE 1)
+        /\ first' = [NoHash EXCEPT ![refn'] = ref'] /\ hasf' = [NoCount EXCEPT ![refn'] = TRUE]
+        /\ UNCHANGED <<terms, sbase, seeds>>
 TClear == /\ l <= Len(Tr) /\ Ev.e = "Clear" /\ phase = "rec" /\ Step
           /\ last' = Clean /\ has' = None /\ pend' = Clean /\ hasp' = None /\ UNCHANGED <<phase, ref, nres, co, ts>>
+          /\ sbase' = -1 /\ seeds' = {} /\ UNCHANGED <<first, hasf, refn, terms>>
 OnCaller(w) == PropOnly \/ co = 0 \/ w = 0
 TSeed == /\ l <= Len(Tr) /\ Ev.e = "Seed" /\ phase = "rec" /\ Step
          /\ OnCaller(Ev.w)
          /\ pend' = [pend EXCEPT ![Ev.w] = RealGen(Pair(Ev.s))] /\ hasp' = [hasp EXCEPT ![Ev.w] = TRUE]
-         /\ UNCHANGED <<phase, last, has, ref, nres, co, ts>>
+         /\ UNCHANGED <<phase, last, has, ref, nres, co, ts>> /\ UNCHANGED r3vars
 TWrote == /\ l <= Len(Tr) /\ Ev.e = "Wrote" /\ phase = "rec" /\ Step
           /\ OnCaller(Ev.w)
           /\ (PropOnly \/ ~hasp[Ev.w] \/ Pair(Ev.v) = pend[Ev.w])     \* the stream is the one the seed defines
           /\ last' = [last EXCEPT ![Ev.w] = Pair(Ev.v)] /\ has' = [has EXCEPT ![Ev.w] = TRUE]
-          /\ UNCHANGED <<phase, pend, hasp, ref, nres, co, ts>>
+          /\ UNCHANGED <<phase, pend, hasp, ref, nres, co, ts>> /\ UNCHANGED r3vars
 TRead == /\ l <= Len(Tr) /\ Ev.e = "Read" /\ phase = "rec" /\ Step
          /\ OnCaller(Ev.w)
          /\ has[Ev.w] /\ Pair(Ev.v) = last[Ev.w]                  \* StreamIsolation on the real word values
          /\ pend' = [pend EXCEPT ![Ev.w] = RealGen(Pair(Ev.v))] /\ hasp' = [hasp EXCEPT ![Ev.w] = TRUE]
-         /\ UNCHANGED <<phase, last, has, ref, nres, co, ts>>
+         /\ UNCHANGED <<phase, last, has, ref, nres, co, ts>> /\ UNCHANGED r3vars
 TClock == /\ l <= Len(Tr) /\ Ev.e = "Clock" /\ phase = "rec" /\ Step
           /\ ts = 1                                                 \* NoClock, unless a clock seed is the routine's contract
-          /\ UNCHANGED <<phase, last, has, pend, hasp, ref, nres, co, ts>>
+          /\ UNCHANGED <<phase, last, has, pend, hasp, ref, nres, co, ts>> /\ UNCHANGED r3vars
+HashOf(ev) == <<ev.h[1], ev.h[2], ev.h[3]>>
+NthOf(ev) == IF Has(ev, "nth") /\ ev.nth \in Counts THEN ev.nth ELSE 0
+\* equal to rounding across thread counts (only a run with ANOTHER thread count than the reference may use it)
+Rounding(ev) == Has(ev, "dq") /\ NthOf(ev) # 0 /\ NthOf(ev) # refn /\ ev.dq >= 0 /\ ev.dq <= TolRound(terms)
 TResult == /\ l <= Len(Tr) /\ Ev.e = "Result" /\ phase = "rec" /\ Step
-           /\ <<Ev.h[1], Ev.h[2], Ev.h[3]>> = ref               \* bit-identical to the sequential / reference run
-           /\ nres' = nres + 1 /\ UNCHANGED <<phase, last, has, pend, hasp, ref, co, ts>>
+           /\ \/ HashOf(Ev) = ref                              \* bit-identical to the sequential / reference run
+              \/ PropOnly /\ Rounding(Ev)                      \* ... or, across thread counts, equal to rounding
+           /\ (hasf[NthOf(Ev)] /\ NthOf(Ev) # 0) => HashOf(Ev) = first[NthOf(Ev)]   \* bit-identical between repeated runs with one thread count
+           /\ (Has(Ev, "libc") => Ev.libc = 0)                  \* no draw from libc's process-wide generator, no clock besides time()
+           /\ first' = (IF NthOf(Ev) # 0 /\ ~hasf[NthOf(Ev)] THEN [first EXCEPT ![NthOf(Ev)] = HashOf(Ev)] ELSE first)
+           /\ hasf' = (IF NthOf(Ev) # 0 THEN [hasf EXCEPT ![NthOf(Ev)] = TRUE] ELSE hasf)
+           /\ nres' = nres + 1 /\ UNCHANGED <<phase, last, has, pend, hasp, ref, co, ts, refn, terms, sbase, seeds>>
+\* a data race ThreadSanitizer reported on the real routines: only on state the model does not speak about (RngState.tla)
+TRace == /\ l <= Len(Tr) /\ Ev.e = "Race" /\ phase = "rec" /\ Step
+         /\ Ev.var \in RaceClasses /\ RaceCompatible(Ev.var)
+         /\ UNCHANGED <<phase, last, has, pend, hasp, ref, nres, co, ts>> /\ UNCHANGED r3vars
+\* hook H5: a bootstrap worker is created with seed offset th + it (implementation layer: the formula is not promised by the statement)
+TCreate == /\ l <= Len(Tr) /\ Ev.e = "Create" /\ phase = "rec" /\ Step
+           /\ LET b == Ev.seed - Ev.th - Ev.it
+              IN /\ (PropOnly \/ (b >= 0 /\ (sbase = -1 \/ b = sbase) /\ Ev.seed \notin seeds))
+                 /\ sbase' = (IF sbase = -1 THEN b ELSE sbase)
+           /\ seeds' = seeds \cup {Ev.seed}
+           /\ UNCHANGED <<phase, last, has, pend, hasp, ref, nres, co, ts, first, hasf, refn, terms>>
+\* end of one call of the bootstrap CV with a dividing thread count: the seeds were base .. base + iterations - 1, each once
+TCalled == /\ l <= Len(Tr) /\ Ev.e = "Called" /\ phase = "rec" /\ Step
+           /\ (PropOnly \/ Ev.iters % Ev.nth # 0 \/ seeds = {sbase + i : i \in 0..(Ev.iters - 1)})
+           /\ sbase' = -1 /\ seeds' = {}
+           /\ UNCHANGED <<phase, last, has, pend, hasp, ref, nres, co, ts, first, hasf, refn, terms>>
 \* implementation-shaped observation: the validation call leaves the caller's own seeded stream untouched
 TCaller == /\ l <= Len(Tr) /\ Ev.e = "Caller" /\ phase = "rec" /\ Step /\ (PropOnly \/ Ev.same = 1)
-           /\ UNCHANGED <<phase, last, has, pend, hasp, ref, nres, co, ts>>
+           /\ UNCHANGED <<phase, last, has, pend, hasp, ref, nres, co, ts>> /\ UNCHANGED r3vars
 TEnd == /\ l <= Len(Tr) /\ Ev.e = "End" /\ phase = "rec" /\ Step /\ nres >= 1
-        /\ phase' = "idle" /\ UNCHANGED <<last, has, pend, hasp, ref, nres, co, ts>>
-TNext == TReset \/ TRun \/ TSeq \/ TClear \/ TSeed \/ TWrote \/ TRead \/ TClock \/ TResult \/ TCaller \/ TEnd
+        /\ phase' = "idle" /\ UNCHANGED <<last, has, pend, hasp, ref, nres, co, ts>> /\ UNCHANGED r3vars
+TNext == TReset \/ TRun \/ TSeq \/ TClear \/ TSeed \/ TWrote \/ TRead \/ TClock \/ TResult \/ TCaller \/ TEnd \/ TRace \/ TCreate \/ TCalled
 TSpec == TInit /\ [][TNext]_tvars
 TraceAccepted == Accepted
 Diag == ShowCursor(l)
